@@ -12,7 +12,7 @@ for i in range(1, 19):
     except ModuleNotFoundError:
         claim = None
     if not claim:
-        na.append({"property_id": pid, "reason": NA.get(pid, "check not built yet at this commit (see DESIGN.md section 9 build order); no verdict is claimed") if (NA := globals().setdefault("NA", {})) is not None else ""})
+        na.append({"property_id": pid, "reason": "check not built yet at this commit (see DESIGN.md section 9 build order); no verdict is claimed"})
         continue
     checks.append({
         "property_id": pid,
